@@ -42,6 +42,18 @@ pub fn run_next_op(registers: &mut Registers, mem: *mut MemoryAreas) -> Option<(
   if code_slice.len() < 1 {
     return None;
   }
+  // The fetched slice stops at the end of its memory region. An instruction
+  // that straddles that boundary still needs its operand bytes, so read them
+  // through the bus instead of indexing past the end of the slice.
+  let mut window = [0u8; 3];
+  let code_slice = if code_slice.len() < window.len() {
+    for i in 0..window.len() {
+      window[i] = memory_read_byte(mem, (index + i) as u16);
+    }
+    &window[..]
+  } else {
+    code_slice
+  };
   let (next_op, length, cycles) = decode(code_slice);
   let should_break = next_op.is_block_end();
   let status = run_op(next_op, registers, mem, length as u32);
